@@ -296,5 +296,29 @@ def nested_batch_begin():
 ALL.append(nested_batch_begin)
 
 
+def limit_orders_taken_to_the_starting_price():
+    """resting LIMIT orders with persistence MARKET_ON_CLOSE at the turn in-play: a LAY whose limit is above the starting price is
+    re-sized to keep its liability (its stake GROWS: the difference is booked as a negative cancellation, nothing may remain), a LAY
+    whose limit is below the starting price and a BACK whose limit is above it lapse, a BACK below it is matched at the starting price"""
+    book = dict(atb=[(2.0, 50.0), (1.75, 50.0)], atl=[(2.5, 50.0), (3.0, 2.0)])
+    def rs(sp=None):
+        return [runner(1, sp=sp, **book), runner(2, sp=(3.0 if sp else None), **book)]
+    ups = [
+        update(T0, rs(), acts={"0": [create(0, 0, 1, "LAY", 2.2, 10.0, pers="MARKET_ON_CLOSE"), ["place", "t0", None, False],
+                                     create(1, 1, 1, "LAY", 1.6, 20.0, pers="MARKET_ON_CLOSE"), ["place", "t1", None, False],
+                                     create(2, 2, 1, "BACK", 3.0, 10.0, pers="MARKET_ON_CLOSE"), ["place", "t2", None, False],
+                                     create(3, 3, 2, "BACK", 2.2, 12.0, pers="MARKET_ON_CLOSE"), ["place", "t3", None, False],
+                                     create(4, 4, 2, "LAY", 2.4, 3.0, pers="MARKET_ON_CLOSE"), ["place", "t4", None, False]]}),
+        update(T0 + 200, rs()),
+        update(T0 + 1000, rs(sp=1.8), inplay=True, bsp_rec=True, version=2),
+        update(T0 + 1200, rs(sp=1.8), inplay=True, bsp_rec=True, version=2),
+        update(T0 + 2200, rs(sp=1.8), inplay=True, bsp_rec=True, version=2),
+    ]
+    return scenario([market(101, ups)], max_order=None, max_sel=None)
+
+
+ALL.append(limit_orders_taken_to_the_starting_price)
+
+
 def all_scenarios():
     return [f() for f in ALL]
